@@ -394,3 +394,7 @@ def repeated_variable(o1: int, o2: int, vk: int, vb: bool, shape: int) -> bool:
         rules = [{"Or": [r1, {"Not": r2}], "Next": "A"}]
         want = ("next", "A") if (t1 or not t2) else ("next", "B")
     return run_choice(rules, doc(v), "B") == want
+
+
+from vf.api import variants
+variants(globals(), repeated_variable, [("_seq", "shape == 0"), ("_and", "shape == 1"), ("_or_not", "shape == 2")])
